@@ -191,6 +191,7 @@ func (v *verifyCtx) enterLoop(x *Exec, st *State, fr *Frame, b *ssa.BasicBlock, 
 			// rangeindex1, rangeindex2, ...: the index of loop N (the bare name is the innermost loop entered last)
 			fr.names[fmt.Sprintf("%s%d", phi.Comment, n)] = TV{nv, phi.Type()}
 		}
+		fr.names[fmt.Sprintf("phi%d", k+1)] = TV{nv, phi.Type()}
 	}
 	st.Loops = append(st.Loops, &loopAct{hdr: b, mods: mods, mark: mark, n: n})
 	e = v.env(x, st, fr)
